@@ -64,7 +64,7 @@ def run(pid, tier, spec, replay_file=None, write=True):
     for sig, o in violations:
         shown.setdefault(sig, []).append(o)
     nv = 0
-    for sig, os_ in shown.items():
+    for sig, os_ in list(shown.items())[:10]:
         path = save_replay(pid, 's%d-%d' % (seed(), nv), {'property': pid, 'signature': sig, 'cases': [x['case'] for x in os_[:20]],
                                                           'observations': os_[:20]})
         print('VIOLATION property=%s replay=%s' % (pid, path))
